@@ -287,6 +287,22 @@ func c20Replay(class string, raw json.RawMessage) (bool, string) {
 		msg = c20Batches(c.N)
 	case "chunks":
 		msg = c20Chunks(c.Start, c.End)
+	case "file-interleaved":
+		dir, _ := os.MkdirTemp("", "c20replay")
+		defer os.RemoveAll(dir)
+		l := c20LayoutByName(c.Layout)
+		if l == nil {
+			return false, "unknown layout"
+		}
+		fn, lines, err := c20Write(dir, l, c.N)
+		if err != nil {
+			return false, err.Error()
+		}
+		ch, err := epd.NewChunker(fn)
+		if err != nil {
+			return true, err.Error()
+		}
+		msg = c20Interleaved(ch, lines, c.N)
 	default:
 		dir, _ := os.MkdirTemp("", "c20replay")
 		defer os.RemoveAll(dir)
@@ -359,6 +375,13 @@ func c20FileFamily(maxN, rangesUpTo int, epochs []int, bigSizes []int, maxLine i
 			nf.Add(1)
 			if msg := c20Epoch(ch, lines, e); msg != "" {
 				fail("file/"+j.l.name, c20Case{Kind: "file", Layout: j.l.name, N: j.n, Epoch: e}, fmt.Sprintf("layout %s, %d lines, epoch %d: %s", j.l.name, j.n, e, msg))
+				return
+			}
+		}
+		// two windows of the same chunker open at the same time with interleaved reads (the tuner's workers share one chunker)
+		if j.n >= 4 && ch.LineCount() == j.n {
+			if msg := c20Interleaved(ch, lines, j.n); msg != "" {
+				fail("file-interleaved/"+j.l.name, c20Case{Kind: "file-interleaved", Layout: j.l.name, N: j.n, Epoch: 2}, fmt.Sprintf("layout %s, %d lines, two chunks open at once: %s", j.l.name, j.n, msg))
 				return
 			}
 		}
@@ -578,4 +601,44 @@ func c20RefillRuns(r *ev.Run) int64 {
 		}
 	}
 	return total
+}
+
+// c20Interleaved opens [0,n/2) and [n/2,n) of epoch 2 at the same time and alternates reads.
+func c20Interleaved(ch *epd.Chunker, lines []string, n int) (msg string) {
+	if p, _ := ev.Catch(func() {
+		a, err := ch.Open(2, 0, n/2)
+		if err != nil {
+			msg = err.Error()
+			return
+		}
+		defer a.Close()
+		b, err := ch.Open(2, n/2, n)
+		if err != nil {
+			msg = err.Error()
+			return
+		}
+		defer b.Close()
+		var got []string
+		doneA, doneB := false, false
+		for !doneA || !doneB {
+			if !doneA {
+				if l, err := a.Read(); err != nil {
+					doneA = true
+				} else {
+					got = append(got, string(l))
+				}
+			}
+			if !doneB {
+				if l, err := b.Read(); err != nil {
+					doneB = true
+				} else {
+					got = append(got, string(l))
+				}
+			}
+		}
+		msg = c20SameMultiset(got, lines)
+	}); p != nil {
+		return fmt.Sprintf("panic: %v", p)
+	}
+	return msg
 }
